@@ -14,8 +14,8 @@ MENUS = collections.OrderedDict([
     ('offsets', [(36000, 3600), (19800, 1800), (0, 7200), (-12600, 3600)]),
     ('srule', [('M', 3, 5, 0), ('M', 4, 1, 3), ('J', 60), ('J', 100), ('N', 59), ('N', 100)]),
     ('erule', [('M', 10, 5, 0), ('M', 9, 5, 6), ('J', 300), ('N', 300), ('J', 305)]),
-    ('stime', [7200, 0, 1800, 3600, 10800, 86400, 93600]),
-    ('etime', [7200, 0, 1800, 3600, 10800, 86400, 93600]),
+    ('stime', [7200, 0, 1800, 3600, 10800, 86400, 93600, 7230]),       # 7230 = 2:00:30 (hh:mm:ss form)
+    ('etime', [7200, 0, 1800, 3600, 10800, 86400, 93600, 3661]),       # 3661 = 1:01:01
     ('south', [True]),
     ('explicit', [False]),
     # a zone whose standard time is called GMT / UTC (offset 0, so the 'GMT+h is ahead' reading does not enter)
